@@ -1967,7 +1967,10 @@ void BW_MidiSequencer::handleEvent(size_t track, const BW_MidiSequencer::MidiEve
         if(evtype == MidiEvent::ST_DEVICESWITCH)
         {
             if(m_interface->onDebugMessage)
-                m_interface->onDebugMessage(m_interface->onDebugMessage_userData, "Switching another device: %s", data);
+            {
+                const std::string name(data, size_t(length)); // The event data has no terminating zero byte
+                m_interface->onDebugMessage(m_interface->onDebugMessage_userData, "Switching another device: %s", name.c_str());
+            }
             if(m_interface->rt_deviceSwitch)
                 m_interface->rt_deviceSwitch(m_interface->rtUserData, track, data, size_t(length));
             return;
